@@ -357,6 +357,13 @@ func (w *concWorld) Exec(p *Plan, st *RunStats) *Violation {
 			}
 			return
 		}
+		if traceOn {
+			for ri, t := range tasks {
+				for i := range t.script {
+					trace("reader %d op %d %s -> %016x", ri, t.script[i].ID, t.script[i].N, hashStr(t.results[i]))
+				}
+			}
+		}
 		for ri, t := range tasks {
 			for i := range t.script {
 				if t.results[i] != expected[ri][i] {
